@@ -30,11 +30,11 @@ TokensLISmall == { B("en"), B("und"), B("abcde"), B("Latn"), B("US"), B("419"), 
 (* locale models: the extension vocabulary                                  *)
 TokensLoc == { B(""), B("en"), B("und"), B("Latn"), B("US"), B("valencia"), B("1abc"),
                B("u"), B("t"), B("x"), B("a"), B("U"), B("foo"), B("bar"), B("true"), B("ca"),
-               B("hc"), B("h0"), B("k0"), B("1a"), B("toolongxx"), B("$"), B("a1b"), B("12"), B("True"), B("zz") }
+               B("hc"), B("h0"), B("k0"), B("1a"), B("toolongxx"), B("$"), B("a1b"), B("12"), B("True"), B("zz"), B("fo.o"), B("ab+") }
 
 (* deep enumeration: the bare minimum to build every extension shape        *)
 TokensLocTiny == { B("en"), B("u"), B("t"), B("x"), B("foo"), B("ca"), B("h0") }
 
 TokensLocSmall == { B(""), B("en"), B("Latn"), B("US"), B("valencia"), B("u"), B("t"), B("x"),
-                    B("a"), B("foo"), B("true"), B("TRUE"), B("ca"), B("h0"), B("k0"), B("toolongxx") }
+                    B("a"), B("foo"), B("true"), B("TRUE"), B("ca"), B("h0"), B("k0"), B("toolongxx"), B("fo.o") }
 =============================================================================
